@@ -257,7 +257,9 @@ CallBuiltin(d, env, name, args, ctx) ==
     [] name = <<"s","u","b","s","t","r","i","n","g">> ->
          IF n \notin {2, 3} THEN Bad ELSE
          LET a == ToStr(d, A(1)) p == ToNum(d, A(2)) l == IF n = 3 THEN ToNum(d, A(3)) ELSE Nan IN
-         IF unkS(a) \/ IsUnk(p) \/ IsUnk(l) THEN Err("unk") ELSE StrV(Chs(Substring(a, p, n = 3, l)))
+         \* (the upper bound round(p) + round(l) must be determined as well)
+         IF unkS(a) \/ IsUnk(p) \/ IsUnk(l) \/ IsUnk(Round(p)) \/ (n = 3 /\ IsUnk(Add(Round(p), Round(l)))) THEN Err("unk")
+         ELSE StrV(Chs(Substring(a, p, n = 3, l)))
     [] name = <<"s","t","r","i","n","g","-","l","e","n","g","t","h">> ->
          IF n > 1 THEN Bad ELSE IF unkS(S1) THEN Err("unk") ELSE NumV(NInt(Len(S1)))
     [] name = <<"n","o","r","m","a","l","i","z","e","-","s","p","a","c","e">> ->
